@@ -98,6 +98,17 @@ func readAPI(dir string) (*apiTable, error) {
 	return t, nil
 }
 
+// continuations are chained onto the statement a form returns.
+var continuations = []func(s *jen.Statement) *jen.Statement{
+	func(s *jen.Statement) *jen.Statement { return s.Block(jen.Id("body").Call()) },
+	func(s *jen.Statement) *jen.Statement { return s.BlockFunc(func(g *jen.Group) { g.Id("body").Call() }) },
+	func(s *jen.Statement) *jen.Statement { return s.Block() },
+	func(s *jen.Statement) *jen.Statement { return s.Call(jen.Id("arg")).Dot("sel") },
+	func(s *jen.Statement) *jen.Statement { return s.Op("+").Lit(1).Line().Id("next") },
+	func(s *jen.Statement) *jen.Statement { return s.Values(jen.Id("v")).Index(jen.Lit(0)) },
+	func(s *jen.Statement) *jen.Statement { return s.Add(jen.Block(jen.Id("wrapped"))) },
+}
+
 // notConstructs are *Statement methods that are not constructs (they do not append an element).
 var notConstructs = map[string]bool{"Clone": true}
 
@@ -387,6 +398,31 @@ func checkCall(cc callCase) error {
 	owr, ewr := renderCode(wantRet)
 	if (er == nil) != (ewr == nil) || or != owr {
 		return fmt.Errorf("%s: group form returns a statement rendering %q, the function form renders %q", fn, or, owr)
+	}
+	// continuations: whatever is chained onto the result must mean the same in every form —
+	// X(..).Block(..) is a case clause after Case / Default (also when a Do callback ended on one), a
+	// call after Id, and so on; the statement a *Group method returns is the one that sits in the group
+	for ki, kont := range continuations {
+		var viaFunc, viaMethod, viaGroup jen.Code
+		if perr := hx.Safe(func() error {
+			b1, b2, b3 := &recipe.Builder{}, &recipe.Builder{}, &recipe.Builder{}
+			opts := jen.Options{Open: "<", Close: ">", Separator: ";"}
+			viaFunc = jen.Custom(opts, kont(b1.CallFunc(fn, c)))
+			viaMethod = jen.Custom(opts, kont(b2.CallMethod(&jen.Statement{}, fn, c)))
+			viaGroup = jen.CustomFunc(opts, func(g *jen.Group) { kont(b3.CallGroup(g, fn, c)) })
+			return nil
+		}); perr != nil {
+			return fmt.Errorf("%s with continuation %d: %v", fn, ki, perr)
+		}
+		of, ef := renderCode(viaFunc)
+		om, em := renderCode(viaMethod)
+		og, eg := renderCode(viaGroup)
+		if (ef == nil) != (em == nil) || of != om {
+			return fmt.Errorf("%s, continuation %d: chained onto the function form it renders %q, onto the method form %q", fn, ki, of, om)
+		}
+		if (ef == nil) != (eg == nil) || of != og {
+			return fmt.Errorf("%s, continuation %d: chained onto the function form it renders %q, onto what the *Group method returned %q", fn, ki, of, og)
+		}
 	}
 	// no form may modify the Code values it is given: build the call with items whose objects we
 	// keep (Ref), go through every form, append to what the forms return, then compare each item
